@@ -52,6 +52,12 @@ def check_graph(case, rec):
     seqs = case["seqs"]
     n = len(seqs)
     nb = call("search", search, case)
+    order = case.get("adj_order", "as_returned")
+    if order != "as_returned":
+        # symdel returns its triplets in set order: any order of the same triplets is a neighbour list a search function may produce
+        nb = sorted(nb, key=lambda t: (int(t[0]), int(t[1])), reverse=(order == "descending"))
+        if order == "interleaved":
+            nb = nb[::2] + nb[1::2][::-1]
     edges = [(int(a), int(b)) for a, b, _ in nb]
     self_pairs = any(a == b for a, b in edges)
     comps = O.components(n, edges)
@@ -155,7 +161,11 @@ def check_hier(case, rec):
         if not np.array_equal(np.asarray(cm), hc.fcluster(Zmw, **ck)):
             raise Violation("hier-clusters-explicit-metric", f"metric weights {mw}: clusters differ from SciPy on that metric's distances")
     kwargs = {}
-    if not case.get("use_defaults"):
+    if case.get("empty_kws"):
+        # an explicitly EMPTY option dict asks for SciPy's own defaults (single linkage, no optimal ordering), not pyrepseq's
+        lk = {}
+        kwargs = dict(linkage_kws={}, cluster_kws=ck)
+    elif not case.get("use_defaults"):
         kwargs = dict(linkage_kws=lk, cluster_kws=ck)
     else:
         lk, ck = dict(method="average", optimal_ordering=True), dict(t=6, criterion="distance")
@@ -169,7 +179,7 @@ def check_hier(case, rec):
         raise Violation("hier-label-count", f"{len(cl)} labels for {len(items)} inputs")
     if not np.array_equal(np.asarray(cl), cw):
         raise Violation("hier-clusters", f"clusters {list(cl)} != SciPy {list(cw)} ({ck})")
-    if kind == "strings" and not case.get("use_defaults"):
+    if kind == "strings" and not case.get("use_defaults") and not case.get("empty_kws"):
         # cross-module identity: single linkage at integer threshold t == components of the t-neighbour graph
         t = case.get("t_int", 1)
         Z1, c1 = call("hierarchical_clustering", pyrepseq.hierarchical_clustering, obj,
@@ -237,6 +247,12 @@ def graph_case(draw, tier="quick"):
         # a group of identical sequences with no other neighbour (their only edges are distance-0 edges)
         seqs = list(seqs) + ["HHHHHHHHHHKKKKKK"] * draw(st.integers(2, 3))
         seqs = list(draw(st.permutations(seqs)))
+    if draw(st.integers(0, 3)) == 0:
+        # a chain: each member one edit from the next, so the component is a long path (deep trees in a union-find)
+        L = draw(st.integers(4, 12))
+        base = draw(st.sampled_from(["CASSL", "WWYY", "GQ"]))
+        chain = [base + "AAAAAAAAAAAAAAAA"[:i] for i in range(L)]
+        seqs = list(draw(st.permutations(list(seqs) + chain)))
     if draw(st.integers(0, 5)) == 0:
         # no neighbour at all: pairwise far-apart sequences
         seqs = [c * (3 + 3 * i) for i, c in enumerate("ACDEF"[:draw(st.integers(1, 5))])]
@@ -245,7 +261,8 @@ def graph_case(draw, tier="quick"):
             # isolated vertex into the module of another component, which the property does not speak about (DESIGN.md 6)
             "method": draw(st.sampled_from(["cc", "cc", "fastgreedy", "multilevel", "leiden"])),
             "nodes_as": draw(st.sampled_from(["list", "ndarray", "series", "labels"])),
-            "adj_as": draw(st.sampled_from(["list", "ndarray"])), "py_seed": draw(st.integers(0, 10 ** 6))}
+            "adj_as": draw(st.sampled_from(["list", "ndarray"])), "py_seed": draw(st.integers(0, 10 ** 6)),
+            "adj_order": draw(st.sampled_from(["as_returned", "as_returned", "ascending", "descending", "interleaved"]))}
     if hamming:
         case["hamming"] = True
     if engine == "kdtree_max_returns":
@@ -274,6 +291,7 @@ def hier_case(draw, tier="quick"):
         case["cols"] = draw(st.sampled_from(["A", "B", "AB"]))
         case["index"] = draw(st.sampled_from(["default", "str", "rev", "dup"]))
     case["omit_criterion"] = draw(st.integers(0, 3)) == 0
+    case["empty_kws"] = draw(st.integers(0, 5)) == 0
     if draw(st.booleans()):
         case["metrics"] = draw(st.lists(st.sampled_from([[1, 1, 1], [1, 1, 2], [2, 1, 1], [1, 3, 1], [3, 2, 2], [25, 40, 1], [60, 70, 3], [50, 40, 60], [100, 100, 100], [300, 1, 1]]), min_size=2, max_size=3))
     return case
